@@ -264,6 +264,7 @@ type c19Node struct {
 	commitLog map[string]int    // key -> times committed (Update)
 	semLog    map[string]string // double-sign identity -> first committed key
 	accepted  map[string]bool   // keys that went through verification or consensus at this node
+	tainted   map[string]bool   // keys the harness itself pushed through AddEvidenceFromConsensus without their being consensus-built
 	dead      bool
 }
 
@@ -599,7 +600,7 @@ func (c *c19Case) stTok(h uint64) string {
 }
 
 func (c *c19Case) newNode(k int) *c19Node {
-	nd := &c19Node{k: k, db: memorydb.New(), seen: map[uint64]*types.Commit{}, commitLog: map[string]int{}, semLog: map[string]string{}, accepted: map[string]bool{}}
+	nd := &c19Node{k: k, db: memorydb.New(), seen: map[uint64]*types.Commit{}, commitLog: map[string]int{}, semLog: map[string]string{}, accepted: map[string]bool{}, tainted: map[string]bool{}}
 	nd.store = cstate.NewStore(nd.db)
 	g := c.blocks[0]
 	rawdb.WriteBlock(nd.db, g.block, g.parts, &types.Commit{})
@@ -778,6 +779,9 @@ func (c *c19Case) expiredAt(stateH uint64, evH uint64) bool {
 
 // acceptedNow is called when node nd accepted e (peer: newly pending; block: list accepted).
 func (c *c19Case) acceptedNow(nd *c19Node, e *c19Ev, via string, wasPending bool) {
+	if wasPending && nd.tainted[c19Key2(e)] {
+		return // the harness, not consensus, put it there
+	}
 	if why := c.truth(e.ev); why != "" {
 		c.o.Fail(c.step, "accepted-unsound:"+why, fmt.Sprintf("node=%d via=%s kind=%s ev=%d h=%d", nd.k, via, e.kind, e.id, e.ev.Height()))
 	}
@@ -932,6 +936,9 @@ func (c *c19Case) opCons(nd *c19Node, e *c19Ev) {
 		return "ok"
 	}, nil)
 	nd.accepted[c19Key2(e)] = true
+	if c.truth(e.ev) != "" {
+		nd.tainted[c19Key2(e)] = true
+	}
 	c.o.Count("cons:" + res)
 }
 
@@ -1051,12 +1058,12 @@ func (c *c19Case) advance(nd *c19Node) {
 		if validated != "ok" {
 			return nil
 		}
+		c.blockAccepted(nd, blk.evs, was, "apply")
 		nd.height = h
 		return c.recordCommit(nd, blk.evs)
 	})
 	c.o.Count("apply:" + res)
 	if res == "ok" {
-		c.blockAccepted(nd, blk.evs, was, "apply")
 		return
 	}
 	// a block of the chain refused by a correct node
@@ -1233,7 +1240,7 @@ func (c *c19Case) mkEvidence(h uint64, kind string) *c19Ev {
 	case "time-minus":
 		ev.Timestamp = ev.Timestamp.Add(-time.Second)
 	case "time-otherblock":
-		if h > 1 {
+		if h > 1 && h-1 <= c.tip() {
 			ev.Timestamp = c.blocks[h-1].time
 		} else {
 			ev.Timestamp = ev.Timestamp.Add(time.Minute)
@@ -1656,7 +1663,15 @@ func (c *c19Case) extend() {
 				all = false
 			}
 		}
-		if len(verdict) > 1 && verdict["ok"] {
+		taint := false
+		for _, nd := range tips {
+			for _, e := range evs {
+				if nd.tainted[c19Key2(e)] {
+					taint = true
+				}
+			}
+		}
+		if len(verdict) > 1 && verdict["ok"] && !taint {
 			var vs []string
 			for v := range verdict {
 				vs = append(vs, v)
